@@ -5,8 +5,8 @@
 # usage: tools/regress_seeds.sh [pattern]     e.g.  tools/regress_seeds.sh 'C0*'
 set -u
 PAT=${1:-*}
-COPY=/tmp/verif_regress
-WT=/tmp/verif_regress_wt
+COPY=/tmp/verif_regress${REGRESS_TAG:-}
+WT=/tmp/verif_regress_wt${REGRESS_TAG:-}
 rm -rf $COPY; mkdir -p $COPY
 rsync -a --exclude .git --exclude build/run --exclude build/cases --exclude replays /verif/ $COPY/
 git -C /repo worktree remove --force $WT 2>/dev/null; git -C /repo worktree prune
@@ -21,7 +21,7 @@ for d in /verif/seeded/$PAT/; do
   git -C $WT checkout -q -- . ; git -C $WT clean -fdq
   if ! git -C $WT apply --check $d/patch.diff 2>/dev/null; then echo "$n $P PATCH-DOES-NOT-APPLY"; continue; fi
   git -C $WT apply $d/patch.diff
-  out=$(AIU_REPO=$WT VERIF_JOBS=6 timeout 1800 /venv/bin/python harness/check.py $P --tier quick 2>&1 | grep "VIOLATION\|^\[$P\]" | tr '\n' ' ')
+  out=$(AIU_REPO=$WT VERIF_JOBS=${VERIF_JOBS:-6} timeout 1800 /venv/bin/python harness/check.py $P --tier quick 2>&1 | grep "VIOLATION\|^\[$P\]" | tr '\n' ' ')
   echo "$n $P $(echo "$out" | grep -q 'VIOLATION' && (echo "$out" | grep -q 'no-failing-input-found' && echo DETECTED-NO-INPUT || echo DETECTED) || echo MISSED) | $(echo "$out" | cut -c1-160)"
 done
 git -C $WT checkout -q -- . ; git -C /repo worktree remove --force $WT; rm -rf $COPY
